@@ -234,7 +234,11 @@ crate::bproofs! {
     c08_halfmove => |n: &mut _| clocks(n, false);
     #[kani::unwind(9)]
     c08_fullmove => |n: &mut _| clocks(n, true);
-    #[kani::unwind(9)]
+    #[kani::stub(core::slice::memchr::memrchr, crate::stubs::memrchr_def)]
+    #[kani::stub(core::slice::memchr::memchr, crate::stubs::memchr_def)]
+    c08_placement_2 => |n: &mut _| placement_short::<_, 2>(n);
+    #[kani::stub(core::slice::memchr::memrchr, crate::stubs::memrchr_def)]
+    #[kani::stub(core::slice::memchr::memchr, crate::stubs::memchr_def)]
     c08_placement_3 => |n: &mut _| placement_short::<_, 3>(n);
     #[kani::unwind(9)]
     c08_placement_5 => |n: &mut _| placement_short::<_, 5>(n);
